@@ -92,8 +92,23 @@ fn main() {
         let real = r.violations.iter().filter(|v| known.is_known(&args.id, &v.signature).is_none()).count();
         std::process::exit(if real > 0 { 1 } else { 0 });
     }
+    // generous wall-clock watchdog: a stuck run is inconclusive, never a verdict
+    {
+        let id = args.id.clone();
+        let budget = std::env::var("TRV_WATCHDOG_S").ok().and_then(|s| s.parse().ok()).unwrap_or(args.tier.pick(600, 5400));
+        std::thread::spawn(move || {
+            std::thread::sleep(std::time::Duration::from_secs(budget));
+            println!("INCONCLUSIVE property={id} wall-clock watchdog fired after {budget}s");
+            std::process::exit(2);
+        });
+    }
+    let known = trv::report::Known::load();
     let mut aggs: Vec<Agg> = vec![];
     for e in &plan.engines {
+        // an earlier engine already refuted the property: report that instead of running on
+        if aggs.iter().any(|a: &Agg| a.violations.iter().any(|v| known.is_known(&args.id, &v.1.signature).is_none())) {
+            break;
+        }
         let n = args.tier.pick(e.quick, e.thorough);
         if n == 0 {
             continue;
